@@ -144,6 +144,46 @@ def dfa_run(mode, b, opts=frozenset()):
     return st
 
 
+def dfa_run_repeated(mode, unit, reps, tail, opts=frozenset()):
+    """State after unit x reps + tail, without materialising the string: the unit's effect on the automaton is a function on the
+    (few) states, iterated with cycle detection.  In mode 6531 unit and tail must each be whole UTF-8 sequences or the string is
+    ill-formed as a whole only if one of them is (callers keep characters inside unit / tail)."""
+    if mode == "6531":
+        us, ts = utf8_symbols(unit), utf8_symbols(tail)
+        if (us is None and reps > 0) or ts is None:
+            return "X"
+        us = us or []
+    else:
+        us, ts = [byte_class(c) for c in unit], [byte_class(c) for c in tail]
+
+    def run(st, syms):
+        for cl in syms:
+            if st == "X":
+                return "X"
+            st = step(mode, st, cl, opts)
+        return st
+    st = "S"
+    seen = {}
+    k = 0
+    while k < reps:
+        if st in seen:
+            period = k - seen[st]
+            k += ((reps - k) // period) * period
+            seen = {}
+            if k >= reps:
+                break
+        seen[st] = k
+        st = run(st, us)
+        k += 1
+    return run(st, ts)
+
+
+def accepts_repeated(mode, unit, reps, tail, opts=frozenset()):
+    if len(unit) * reps + len(tail) == 0:
+        return False
+    return dfa_run_repeated(mode, unit, reps, tail, opts) in ACCEPTING
+
+
 def dfa_accepts(mode, b, opts=frozenset()):
     if len(b) == 0:
         return False
